@@ -22,6 +22,7 @@ import ModVerif.Proofs.ClientRefineCache
 import ModVerif.Proofs.ClientRefineHonest
 import ModVerif.Proofs.ClientRefineMem
 import ModVerif.Proofs.ClientRefineChain
+import ModVerif.Proofs.ClientEffectsLookup
 import ModVerif.Props.C13
 namespace ModVerif.Props.C14
 open ModVerif ModVerif.ParCache
@@ -884,5 +885,82 @@ example : ((ParCache.run exKey exVal (ParCache.init Nat)
     some (some 10, some 10, some 12, 1, 1, .returned, .returned, .returned) := by rfl
 
 end caches
+
+section effects
+open ModVerif.Client ModVerif.ClientFetch ModVerif.ClientEffects
+
+/-- ★ **`fetch_once` on the sequential client model, one `Lookup` call, stated over the effect trace** (`World.tr`: the
+model itself logs every external operation with its file argument, so the trace is the log of the instrumented
+environment; the theorem holds for EVERY environment `E`, every world `w`).  `name` = the client's name after `init`,
+`file` = the call's lookup file (`lookupFile`, the key of `fetch_once`), `file.drop name.length` = its lookup path.  The
+trace extension of the call contains at most one `ReadCache(file)` and at most one `ReadRemote(path)`; every other
+logged effect is `Other name`: a cache read of a tile file of this client (`name ++ "/tile/…"`), a remote read of a tile
+path (`"/tile/…"`), a configuration read, or no read at all (write / SecurityError) — `other_not_cacheRead`,
+`other_not_remoteRead` (Proofs/ClientEffects.lean): an `Other` effect is never a read of ANY lookup file / lookup path of
+the client.  When the record cache has an entry for `file`, the call reads neither the file nor the path.  Entries of the
+record cache are never lost. -/
+theorem fetch_once_sequential_call {σ H : Type} [DecidableEq H] (P : Params H) (E : Env σ) (w : World σ H)
+    (path vers file : Bytes) (hfile : lookupFile P.isLetter (Client.init P E w).c.name path vers = some file) :
+    ∃ ext, (lookup P E w path vers).2.tr = w.tr ++ ext ∧
+      cacheReads file ext ≤ 1 ∧ remoteReads (file.drop (Client.init P E w).c.name.length) ext ≤ 1 ∧
+      (∀ e ∈ ext, Other (Client.init P E w).c.name e ∨ (∃ ok, e = .read .cache file ok) ∨
+        (∃ ok, e = .read .remote (file.drop (Client.init P E w).c.name.length) ok)) ∧
+      (w.c.record.lookup file ≠ none → (∀ e ∈ ext, Other (Client.init P E w).c.name e) ∧
+        cacheReads file ext = 0 ∧ remoteReads (file.drop (Client.init P E w).c.name.length) ext = 0) ∧
+      (∀ g r, w.c.record.lookup g = some r → (lookup P E w path vers).2.c.record.lookup g = some r) :=
+  lookup_reads_lookup_file_once P w path vers file hfile
+
+/-- ★ **`fetch_once` on the sequential client model, any sequence of `Lookup` calls** (every environment, any start
+world, any requests — accepted or not): with `name` the client's name at the end of the run, for EVERY lookup key
+`name ++ "/lookup/" ++ rest` the whole trace extension contains at most one `ReadCache` of the file and at most one
+`ReadRemote` of the path `"/lookup/" ++ rest`, and none if the record cache had the entry at the start; the record cache
+only grows (`runLookups_record_mono`: the model never evicts — as `parCache` never does). -/
+theorem fetch_once_sequential {σ H : Type} [DecidableEq H] (P : Params H) (E : Env σ) (qs : List (Bytes × Bytes))
+    (w : World σ H) (rest : Bytes) :
+    (∃ ext, (runLookups P E w qs).tr = w.tr ++ ext ∧
+      cacheReads ((runLookups P E w qs).c.name ++ (B "/lookup/" ++ rest)) ext ≤ 1 ∧
+      remoteReads (B "/lookup/" ++ rest) ext ≤ 1 ∧
+      (w.c.record.lookup ((runLookups P E w qs).c.name ++ (B "/lookup/" ++ rest)) ≠ none →
+        cacheReads ((runLookups P E w qs).c.name ++ (B "/lookup/" ++ rest)) ext = 0 ∧
+        remoteReads (B "/lookup/" ++ rest) ext = 0)) ∧
+    (∀ g r, w.c.record.lookup g = some r → (runLookups P E w qs).c.record.lookup g = some r) :=
+  ⟨runLookups_fetch_once P qs w rest, runLookups_record_mono P qs w⟩
+
+/-- every lookup file has the shape the sequence theorem quantifies over -/
+theorem fetch_once_sequential_keys (isLetter : Nat → Bool) (name path vers file : Bytes)
+    (h : lookupFile isLetter name path vers = some file) : ∃ rest, file = name ++ (B "/lookup/" ++ rest) :=
+  lookupFile_shape isLetter name path vers file h
+
+/-- the two calls of the example below, and the same as one run -/
+def exFetch1 : Except Err (List Bytes) × World HState UInt8 :=
+  lookup Props.C01.HonestExample.hP (honestEnv Props.C01.HonestExample.hS)
+    ⟨⟨[], []⟩, newClient Props.C01.HonestExample.hP, []⟩ (B "example.com/m") (B "v1.0.0")
+def exFetch2 : Except Err (List Bytes) × World HState UInt8 :=
+  lookup Props.C01.HonestExample.hP (honestEnv Props.C01.HonestExample.hS) exFetch1.2 (B "example.com/m") (B "v1.0.0/go.mod")
+def exFetchRun : World HState UInt8 :=
+  runLookups Props.C01.HonestExample.hP (honestEnv Props.C01.HonestExample.hS)
+    ⟨⟨[], []⟩, newClient Props.C01.HonestExample.hP, []⟩
+    [(B "example.com/m", B "v1.0.0"), (B "example.com/m", B "v1.0.0/go.mod")]
+
+/-- non-vacuity, kernel-evaluated on C01's honest world (`Props.C01.HonestExample`, cold cache, fresh client): `Lookup` of
+`example.com/m v1.0.0`, then of `example.com/m v1.0.0/go.mod` — the same lookup file `k/lookup/example.com/m@v1.0.0`
+(hypothesis `hfile` of `fetch_once_sequential_call` for the second call); the whole trace has ONE `ReadRemote` of the
+lookup path and ONE `ReadCache` of the lookup file, the record cache has one entry, the first call returned the record's
+line and the second call succeeded (no `/go.mod` line in this record) without any effect. -/
+example :
+    (exFetch1).1 = .ok [B "example.com/m v1.0.0 h1:abc="] ∧ (exFetch2).1 = .ok [] ∧
+    (Client.init Props.C01.HonestExample.hP (honestEnv Props.C01.HonestExample.hS) exFetch1.2).c.name = B "k" ∧
+    lookupFile Props.C01.HonestExample.hP.isLetter (B "k") (B "example.com/m") (B "v1.0.0/go.mod") =
+      some (B "k" ++ Props.C01.HonestExample.hPath) ∧
+    lookupFile Props.C01.HonestExample.hP.isLetter (B "k") (B "example.com/m") (B "v1.0.0") =
+      some (B "k" ++ Props.C01.HonestExample.hPath) ∧
+    exFetchRun.c.name = B "k" ∧
+    remoteReads Props.C01.HonestExample.hPath exFetchRun.tr = 1 ∧
+    cacheReads (B "k" ++ Props.C01.HonestExample.hPath) exFetchRun.tr = 1 ∧
+    exFetchRun.tr = exFetch2.2.tr ∧ exFetch2.2.tr = exFetch1.2.tr ∧ exFetchRun.c.record.length = 1 ∧
+    3 ≤ exFetch1.2.tr.length := by
+  decide +kernel
+
+end effects
 
 end ModVerif.Props.C14
